@@ -1,4 +1,5 @@
 import TxdbusModel.Proofs.Intro.Final
+import TxdbusModel.Proofs.Intro.Sorted
 /-!
 # C15 - Introspection XML round-trips every interface definition
 
@@ -162,6 +163,16 @@ theorem xml_cache_coherent (name : Str) (ops : List Op) {c c' : Cached} {x : Lis
   rw [hx] at this
   exact this.symm
 
+/-- **Order of the generated elements.**  `_getXml` lists methods, signals and properties each in Python's
+`sorted` order of their names (code-point lexicographic) - this fixes the event order the correspondence check
+compares; the round trip itself does not depend on it. -/
+theorem members_sorted (i : Interface) :
+    ((sortedValues Method.name i.methods).map Method.name).Pairwise (fun a b => strLe a b = true) ∧
+    ((sortedValues Signal.name i.signals).map Signal.name).Pairwise (fun a b => strLe a b = true) ∧
+    ((sortedValues Property.name i.properties).map Property.name).Pairwise (fun a b => strLe a b = true) := by
+  simp only [sortedValues_names]
+  exact ⟨sortStrs_sorted _, sortStrs_sorted _, sortStrs_sorted _⟩
+
 /-! ## the hypotheses are satisfiable; concrete evaluation of the models -/
 
 /-- a declared interface: containers, a dict entry, nested structs, all access modes, overwritten and deleted
@@ -231,5 +242,6 @@ example : ∃ i : Interface, i.ValidNames ∧ i.methods.length = 1 :=
 #print axioms known_reused_unless_replaced
 #print axioms generated_attribute_values_need_no_escaping
 #print axioms xml_cache_coherent
+#print axioms members_sorted
 
 end Txdbus.Intro
